@@ -2,6 +2,7 @@
 use crate::ber;
 use crate::gen;
 use crate::msg::{reply_for, resp_node, Req, ReqMsg, Res, Resp, RespCtl, CritEnc};
+use crate::pipe::PipeCtl;
 use crate::pipe::{ServerEnd, Tx};
 use crate::prng::{fnv, Rng};
 use crate::report::{case_rng, par_cases, Ctx, Report};
@@ -173,6 +174,10 @@ pub enum Step {
     /// stream that times out and is then dropped without finish()... excluded by the property; not generated
     /// abandon issued with a zero timeout (its caller gives up at once) against an in-flight operation
     AbandonInflightZeroTimeout,
+    /// (kind 0 = single op, 1 = start of a streaming search, 2 = search() call; whether the server answers
+    /// once it finally gets the request): the peer has stopped reading, so the driver is stuck writing the
+    /// request when the caller's timeout fires; the writes are released 300 ms later
+    TimeoutWhileWriteStalled(u8, bool),
     AbandonFinished,
     AbandonTimedOut,
     AbandonInflight,
@@ -195,6 +200,9 @@ impl Step {
             Step::TimeoutStream(_, _, false) => "stream-timeout-server-silent-afterwards",
             Step::TimeoutSearchCall(..) => "search()-timeout-server-silent-afterwards",
             Step::AbandonInflightZeroTimeout => "abandon-with-zero-timeout-of-inflight-op",
+            Step::TimeoutWhileWriteStalled(0, _) => "single-op-timeout-while-the-request-is-being-written",
+            Step::TimeoutWhileWriteStalled(1, _) => "stream-start-timeout-while-the-request-is-being-written",
+            Step::TimeoutWhileWriteStalled(..) => "search()-timeout-while-the-request-is-being-written",
             Step::AbandonFinished => "abandon-of-finished-op",
             Step::AbandonTimedOut => "abandon-of-timed-out-op",
             Step::AbandonInflight => "abandon-of-inflight-op",
@@ -204,7 +212,8 @@ impl Step {
 }
 
 pub fn gen_step(rng: &mut Rng) -> Step {
-    match rng.below(14) {
+    match rng.below(15) {
+        14 => Step::TimeoutWhileWriteStalled(rng.below(3) as u8, rng.bool()),
         13 => {
             let p = 1 + rng.usize(5);
             let n = p + 1 + rng.usize(10);
@@ -280,7 +289,7 @@ async fn read_all(ldap: &mut Ldap, adapters: Vec<Box<dyn Adapter<'static, String
     format!("items={}{}:finish-rc={}:{}", n, end, r.rc, r.text)
 }
 
-pub async fn run_step(ldap: &mut Ldap, other: &mut Ldap, step: &Step, tok: u64, last_finished: &mut i32) -> StepObs {
+pub async fn run_step(ldap: &mut Ldap, other: &mut Ldap, step: &Step, tok: u64, last_finished: &mut i32, ctl: &PipeCtl) -> StepObs {
     let mut obs = StepObs::default();
     match step {
         Step::Single | Step::Unsolicited => {
@@ -334,6 +343,27 @@ pub async fn run_step(ldap: &mut Ldap, other: &mut Ldap, step: &Step, tok: u64, 
                 Ok(Err(e)) => format!("err:{}", world::err_class(&e)),
                 Err(p) => format!("panic:{}", p.site()),
             };
+        }
+        Step::TimeoutWhileWriteStalled(kind, answered) => {
+            // the peer stops reading: the very next write of the driver waits
+            ctl.stall_writes_after(0);
+            let release = ctl.clone();
+            let rel = tokio::spawn(async move {
+                tokio::time::sleep(Duration::from_millis(300)).await;
+                release.release_writes();
+            });
+            ldap.with_timeout(Duration::from_millis(100));
+            let b = if *answered { "items2" } else { "silent" };
+            obs.outcome = match kind {
+                0 => invoke(ldap, &Call::Delete { dn: format!("op={},b={}", tok, if *answered { "normal" } else { "silent" }) }).await.class(),
+                1 => read_all(ldap, vec![], &format!("op={},b={}", tok, b), None).await,
+                _ => match Caught::new(ldap.search(&format!("op={},b={}", tok, b), Scope::Subtree, "(a=b)", vec!["*"])).await {
+                    Ok(Ok(r)) => format!("items={}:rc={}", r.0.len(), r.1.rc),
+                    Ok(Err(e)) => format!("err:{}", world::err_class(&e)),
+                    Err(p) => format!("panic:{}", p.site()),
+                },
+            };
+            let _ = rel.await;
         }
         Step::AbandonInflightZeroTimeout => {
             let mut l2 = ldap.clone();
@@ -418,12 +448,13 @@ fn run_case(i: u64, rng: &mut Rng, rep: &mut Report, nsteps: usize, verbose: boo
         let mut ldap = c.ldap;
         let mut other = ldap.clone();
         let gauges = ldap.verif_gauges();
+        let ctl = c.server.ctl();
         let srv = tokio::spawn(behaviour_server(c.server));
         let mut obs = vec![];
         let mut tables = vec![];
         let mut last_finished = 0;
         for (k, s) in steps2.iter().enumerate() {
-            let o = world::watchdog(run_step(&mut ldap, &mut other, s, i * 1000 + k as u64, &mut last_finished)).await.unwrap_or(StepObs { outcome: "HUNG".into(), ..Default::default() });
+            let o = world::watchdog(run_step(&mut ldap, &mut other, s, i * 1000 + k as u64, &mut last_finished, &ctl)).await.unwrap_or(StepObs { outcome: "HUNG".into(), ..Default::default() });
             obs.push(o);
             // quiescent point: let late replies arrive, then nothing is outstanding
             tokio::time::sleep(Duration::from_millis(1500)).await;
